@@ -107,9 +107,11 @@ def inventory(data):
                 if r in keys and "{closure" in r:
                     fns[root]["dcc"] = fns[root].get("dcc", 0) + 1
     adts = {}
+    vnames = {}
     for a in data["adts"]:
         adts[a["path"]] = [[[f["name"], f["ty"]["s"]] for f in v["fields"]] for v in a.get("variants", [])]
-    return {"fns": fns, "adts": adts}
+        vnames[a["path"]] = [v.get("name") for v in a.get("variants", [])]
+    return {"fns": fns, "adts": adts, "adt_variants": vnames}
 
 
 # ---------------------------------------------------------------------------------------------- generic JSON walkers
@@ -270,6 +272,7 @@ def _inline_call(caller, bb, callee, arg_ops=None, ret_rv=None, ret_to=None):
     arg_ops overrides the operands bound to the callee's parameters; ret_rv(op) builds the rvalue stored into the call's
     destination from the callee's return place (default: a plain move)."""
     blocks = caller["blocks"]
+    caller.setdefault("orig_blocks", len(blocks))
     t = blocks[bb]["term"]
     loc_off = len(caller["locals"])
     blk_off = len(blocks)
@@ -311,6 +314,157 @@ def _inline_call(caller, bb, callee, arg_ops=None, ret_rv=None, ret_to=None):
     if callee.get("promoted"):
         # promoted constants are referenced by (body name, index): keep the callee's list reachable under its own name
         caller.setdefault("promoted_of", {})[strip_generics(callee["path"])] = callee["promoted"]
+
+
+def _preds(blocks):
+    pr = {}
+    for i, blk in enumerate(blocks):
+        t = blk["term"]
+        tg = []
+        if isinstance(t.get("target"), int):
+            tg.append(t["target"])
+        if t["k"] == "switch":
+            tg += [x for _, x in t["arms"]] + [t["otherwise"]]
+        tg += [x for x in t.get("targets", []) if isinstance(x, int)]
+        for fld in ("unwind", "drop"):
+            if isinstance(t.get(fld), int):
+                tg.append(t[fld])
+        for x in tg:
+            pr.setdefault(x, set()).add(i)
+    return pr
+
+
+def _thread_jumps(b, first_new):
+    """Jump threading for values produced by an inlined helper: a helper that returned `bool` / a private enum and is matched
+    on by its caller leaves, once spliced in, `x = Variant; goto join; join: switch discriminant(x)`. Every edge into such a
+    join whose value is a constant assigned in the spliced code (block index >= first_new) is redirected - through clones of
+    the side-effect-carrying blocks on the way - straight to the arm it takes. The caller's control flow then depends on the
+    helper's own tests again, as before the helper existed. Pure CFG rewrite: no statement is added, dropped or reordered on
+    any path."""
+    blocks = b["blocks"]
+    n_threaded = 0
+    for _pass in range(6):
+        preds = _preds(blocks)
+        done = False
+        for j, J in enumerate(blocks):
+            t = J["term"]
+            if t["k"] != "switch" or J.get("cleanup") or t["discr"].get("k") not in ("copy", "move") or t["discr"]["place"]["p"]:
+                continue
+            want0 = ("val", t["discr"]["place"]["l"])
+
+            def scan(blk_idx, want, upto=None, is_entry=False):
+                """Backward over the statements of one block. Returns ('const', v, from_new) | ('open', want) | None (unknown)."""
+                blk = blocks[blk_idx]
+                if is_entry:
+                    tt = blk["term"]
+                    if tt["k"] in ("call", "yield") and isinstance(tt.get("dest"), dict) and tt["dest"]["l"] == want[1]:
+                        return None
+                    if tt["k"] == "yield" and isinstance(tt.get("resume_arg"), dict) and tt["resume_arg"].get("l") == want[1]:
+                        return None
+                for st in reversed(blk["stmts"] if upto is None else blk["stmts"][:upto]):
+                    k = st["k"]
+                    if k == "setdiscr" and st.get("place", {}).get("l") == want[1]:
+                        return None
+                    if k == "intrinsic":
+                        continue
+                    if k != "assign" or st["place"]["l"] != want[1]:
+                        continue
+                    if st["place"]["p"]:
+                        return None
+                    rv = st["rv"]
+                    if rv["k"] == "aggr" and "vidx" in rv and want[0] == "variant":
+                        return ("const", rv["vidx"], blk_idx >= first_new)
+                    if rv["k"] == "use" and rv["op"].get("k") == "const" and "val" in rv["op"]:
+                        return ("const", rv["op"]["val"], blk_idx >= first_new)
+                    if rv["k"] == "use" and rv["op"].get("k") in ("copy", "move") and not rv["op"]["place"]["p"]:
+                        want = (want[0], rv["op"]["place"]["l"])
+                        continue
+                    if rv["k"] == "discr" and not rv["place"]["p"] and want[0] == "val":
+                        want = ("variant", rv["place"]["l"])
+                        continue
+                    return None
+                return ("open", want)
+
+            r0 = scan(j, want0)
+            if r0 is None or r0[0] != "open":
+                continue
+            # chains: (list of block indexes ending in j, want at the head's start)
+            work = [([j], r0[1])]
+            threads = []   # (pred, chain, value)
+            while work:
+                chain, want = work.pop()
+                if len(chain) > 4:
+                    continue
+                for q in sorted(preds.get(chain[0], ())):
+                    if q in chain or blocks[q].get("cleanup"):
+                        continue
+                    r = scan(q, want, is_entry=True)
+                    if r is None:
+                        continue
+                    if r[0] == "const":
+                        if r[2]:
+                            threads.append((q, chain, r[1]))
+                        continue
+                    # still open at q's start: q joins the chain, if it only falls through
+                    qt = blocks[q]["term"]
+                    if qt["k"] == "goto" and qt["target"] == chain[0]:
+                        work.append(([q] + chain, r[1]))
+            for q, chain, val in threads:
+                arms = dict((v, tg) for v, tg in t["arms"])
+                dest = arms.get(val, t["otherwise"])
+                # clone the chain, last block falls through to `dest`
+                new_idx = []
+                for c in chain:
+                    nb = copy.deepcopy(blocks[c])
+                    new_idx.append(len(blocks))
+                    blocks.append(nb)
+                for k2, ni in enumerate(new_idx):
+                    nb = blocks[ni]
+                    if k2 + 1 < len(new_idx):
+                        nb["term"]["target"] = new_idx[k2 + 1]
+                    else:
+                        nb["term"] = {"k": "goto", "target": dest, "span": t.get("span"),
+                                      "text": f"goto -> bb{dest} <threaded: switch value {val} known on this edge>"}
+                head = chain[0]
+                _map_blocks_in_term_edges(blocks[q]["term"], head, new_idx[0])
+                n_threaded += 1
+                done = True
+            if done:
+                break
+        if not done:
+            break
+    if n_threaded:
+        # blank what became unreachable (stale duplicates would otherwise be counted by whole-body scans)
+        seen, st = {0}, [0]
+        pr = None
+        succ = {}
+        for x, ys in _preds(blocks).items():
+            for y in ys:
+                succ.setdefault(y, set()).add(x)
+        while st:
+            x = st.pop()
+            for y in succ.get(x, ()):
+                if y not in seen:
+                    seen.add(y)
+                    st.append(y)
+        for i, blk in enumerate(blocks):
+            if i not in seen:
+                blk["stmts"] = []
+                blk["term"] = {"k": "unreachable", "span": blk["term"].get("span"), "text": "unreachable <threaded away>"}
+        b["threaded"] = n_threaded
+    return n_threaded
+
+
+def _map_blocks_in_term_edges(t, old, new):
+    """Retarget the non-unwind edges of terminator t that lead to block `old`."""
+    if t.get("target") == old:
+        t["target"] = new
+    if t["k"] == "switch":
+        t["arms"] = [[v, new if tg == old else tg] for v, tg in t["arms"]]
+        if t["otherwise"] == old:
+            t["otherwise"] = new
+    if "targets" in t:
+        t["targets"] = [new if x == old else x for x in t["targets"]]
 
 
 def _future_local(b, op, depth=8):
@@ -557,6 +711,45 @@ def normalize(pkg, data, log=None):
         if ok and mapping:
             _rename_fields(data, path, mapping)
             notes.append(f"fields of {path}: {mapping}")
+    # ---- (c2) renamed enum variants (same enum - possibly renamed above -, same number of variants, same field types each)
+    for path, bnames in base.get("adt_variants", {}).items():
+        cnames = cur.get("adt_variants", {}).get(path)
+        bvars, cvars = base["adts"].get(path), cur["adts"].get(path)
+        if not cnames or cnames == bnames or len(cnames) != len(bnames) or len(bnames) < 2 or sorted(cnames) == sorted(bnames):
+            continue
+        if [[t for _n, t in v] for v in bvars] != [[t for _n, t in v] for v in cvars]:
+            continue
+        vmap = {c: b_ for c, b_ in zip(cnames, bnames) if c != b_}
+        if any(c in bnames for c in vmap):
+            continue
+        # a downcast element carries only the variant name: rename it there only if no other type of the crate uses the name
+        elsewhere = {v.get("name") for a in data["adts"] if a["path"] != path for v in a.get("variants", [])} | \
+                    {"Some", "None", "Ok", "Err", "Ready", "Pending", "Break", "Continue", "Less", "Equal", "Greater"}
+        dc_ok = {c for c in vmap if c not in elsewhere}
+
+        def walk(x, _vmap=vmap, _path=path, _dc=dc_ok):
+            if isinstance(x, dict):
+                if x.get("k") == "aggr" and x.get("adt") == _path and x.get("variant") in _vmap:
+                    x["variant"] = _vmap[x["variant"]]
+                if x.get("k") == "const" and x.get("variant") in _vmap and _path in (x.get("ty") or ""):
+                    x["variant"] = _vmap[x["variant"]]
+                if "v" in x and "i" in x and x["v"] in _dc and len(x) == 2:
+                    x["v"] = _vmap[x["v"]]
+                for v in x.values():
+                    if isinstance(v, (dict, list)):
+                        walk(v)
+            elif isinstance(x, list):
+                for v in x:
+                    if isinstance(v, (dict, list)):
+                        walk(v)
+        for b in data["bodies"]:
+            walk(b["blocks"])
+        for a in data["adts"]:
+            if a["path"] == path:
+                for v in a.get("variants", []):
+                    if v.get("name") in vmap:
+                        v["name"] = vmap[v["name"]]
+        notes.append(f"variants of {path}: {vmap}")
     # ---- (a) function renames
     gone = [k for k in base["fns"] if k not in cur["fns"]]
     new = [k for k in cur["fns"] if k not in base["fns"]]
@@ -655,6 +848,13 @@ def normalize(pkg, data, log=None):
     dropped = _inline_new_helpers(data, set(new), log=log)
     if dropped:
         notes.append(f"inlined new helpers: {sorted(dropped)}")
+    # ---- (g) values returned by spliced-in helpers and matched on by the caller: thread the jumps
+    n_thr = 0
+    for b in data["bodies"]:
+        if b.get("inlined") and "orig_blocks" in b:
+            n_thr += _thread_jumps(b, b["orig_blocks"])
+    if n_thr:
+        notes.append(f"jump threads through inlined helper results: {n_thr}")
     if notes:
         data["_normalized"] = notes
         if log:
